@@ -344,8 +344,19 @@ impl DspRuntime for WasmDspRuntime {
         } = new_program
         {
             // Snapshot the old global state before loading the new module.
-            let old_global_data: Option<Vec<u64>> =
+            let mut old_global_data: Option<Vec<u64>> =
                 self.engine.get_global_state_data().map(|d| d.to_vec());
+            // The host grows the state storage lazily, so it can still be shorter than the
+            // layout it implements (e.g. a swap before the first sample). Cells that were never
+            // touched are zero: extend the snapshot so the patches address it safely.
+            if let (Some(old_data), Some(old_skel)) =
+                (old_global_data.as_mut(), &self.current_dsp_skeleton)
+            {
+                let full = old_skel.total_size() as usize;
+                if old_data.len() < full {
+                    old_data.resize(full, 0);
+                }
+            }
 
             let old_engine = std::mem::replace(&mut self.engine, *prepared_engine);
 
